@@ -374,13 +374,17 @@ class Scales(Stream):
     mods = ["Model.Pitch"]
     checker = "check_pitch_lists"
     pair = "Chord.scale_pitches <-> Pitch.chord_scale (with the rotation oracle)"
-    quick, thorough = 760, 760
+    quick, thorough = 860, 860
 
     def gen(self, rng, n):
         for md in MODES:
             for e in range(7):
                 for t in range(12):
                     yield {"chord": {"elem": e, "fig": "", "tdeg": t, "tmode": md, "toct": 0, "coct": 0}}
+        # every base figure: the root position view (chord_pitches) and the figured view (chord_extension_pitches)
+        for f in FIGURES:
+            for md in MODES:
+                yield {"chord": {"elem": rng.randrange(7), "fig": f, "tdeg": rng.randrange(12), "tmode": md, "toct": rng.choice([0, 1, -1]), "coct": rng.choice([0, 0, 1])}}
         # chords moved by octaves, with and without an explicit tonality (a bare degree such as II.o(1) is read in C major)
         for e in range(7):
             for co in (-2, -1, 1, 2):
@@ -401,8 +405,11 @@ class Scales(Stream):
         want = [spec_chord_deg(c, j) for j in range(7)]
         if r[0] != want:
             return {"sig": f"scale:mode={c['tmode']}", "msg": f"chord scale should be {want}, library gives {r[0]}"}
-        if r[1] != [want[0], want[2], want[4]]:
+        if c["fig"] in THREE and r[1] != [want[0], want[2], want[4]]:
             return {"sig": "chord-tones-not-stacked-thirds", "msg": f"{r[1]} vs scale {want}"}
+        from harness.props.C01 import spec_arpeggio
+        if r[1] != spec_arpeggio(c, False) or r[2] != spec_arpeggio(c, True):
+            return {"sig": "chord-tones-not-stacked-thirds:" + c["fig"], "msg": f"figure {c['fig']!r}: chord tones {r[1]} / figured {r[2]}, stacked thirds {spec_arpeggio(c, False)} / {spec_arpeggio(c, True)}"}
         return None
 
     def nontrivial(self, case, r):
@@ -456,7 +463,13 @@ class DerivedAfterUse(Stream):
             fresh = self.apply(mlang.mk_chord(case["chord"]), case)
             same_obj = mlang.mk_chord(case["chord"])
             first = lists(same_obj)
-            return {"derived": lists(derived), "fresh": lists(fresh), "stable": lists(same_obj) == first,
+            # analyses of the chord (voicings with more voices than chord tones, patterns) leave its tones alone
+            voiced = mlang.mk_chord(case["chord"])
+            for nb in (4, 5, 6):
+                voiced.to_voicing(nb_voices=nb)
+            tones = lambda c: [[str(x) for x in c.extension_notes], [str(x) for x in c.chord_notes]]
+            untouched = lists(voiced) == first and tones(voiced) == tones(mlang.mk_chord(case["chord"]))
+            return {"derived": lists(derived), "fresh": lists(fresh), "stable": lists(same_obj) == first and untouched,
                     "id": [int(derived.element), derived.tonality.degree, derived.tonality.mode, derived.tonality.octave, derived.octave]}
         return mlang.guarded(f)
 
